@@ -198,7 +198,26 @@ def run(ctx: Any, prog: Program) -> None:
     # ... and report names relative to it.  The members match folder names case-insensitively, so the files found may spell the prefix
     # differently from the chain: os.path.relpath() compares case-sensitively and then answers `../Materials/x` for prefix `materials`.
     rels = [c for c in ast.walk(wr) if isinstance(c, ast.Call) and dotted(c.func) == 'os.path.relpath' and len(c.args) == 2 and dotted(c.args[1]) == 'prefix']
-    folded_strip = any(isinstance(c, ast.Compare) and ast.unparse(c).count('casefold()') >= 2 and 'prefix' in ast.unparse(c) for c in ast.walk(wr))
+    # locals derived from the member prefix (norm_prefix, and anything computed from it)
+    pref_defs: Dict[str, ast.AST] = {}
+    grew = True
+    while grew:
+        grew = False
+        for a_ in ast.walk(wr):
+            if isinstance(a_, ast.Assign) and isinstance(a_.targets[0], ast.Name) and a_.targets[0].id not in pref_defs \
+                    and any(isinstance(x, ast.Name) and (x.id == 'prefix' or x.id in pref_defs) for x in ast.walk(a_.value)):
+                pref_defs[a_.targets[0].id] = a_.value
+                grew = True
+
+    def folds(e: ast.AST, depth: int = 0) -> int:
+        n_ = ast.unparse(e).count('casefold()')
+        if depth < 4:
+            for x in ast.walk(e):
+                if isinstance(x, ast.Name) and x.id in pref_defs:
+                    n_ += folds(pref_defs[x.id], depth + 1)
+        return n_
+    folded_strip = any(isinstance(c, ast.Compare) and isinstance(c.ops[0], ast.Eq) and folds(c) >= 2 and any(isinstance(x, ast.Name) and (x.id == 'prefix' or x.id in pref_defs) for x in ast.walk(c))
+                       for c in ast.walk(wr))
     if not rels and not folded_strip:
         ctx.shape('C19.H4', False, fs, wr, 'how walk_folder_repeat removes the member prefix from the names it reports was not recognised', func='FileSystemChain.walk_folder_repeat', text='prefix stripped on walk')
     else:
